@@ -74,7 +74,7 @@ func c09Scenario(c *choice.Ctx, rep *report.R) {
 		cl := seam.open(v)
 		cl.send(q)
 		wait()
-		time.Sleep(100 * time.Millisecond)
+		hsleep(100 * time.Millisecond)
 		wait()
 		_, raws := cl.responses()
 		if len(raws) != 1 {
@@ -145,7 +145,7 @@ func c09Scenario(c *choice.Ctx, rep *report.R) {
 		obs += fmt.Sprintf("%d/%d;", len(raw), omitted)
 		cl.close()
 		wait()
-		time.Sleep(2 * time.Second)
+		hsleep(2 * time.Second)
 	}
 	v.Close()
 	for _, x := range own.Audit() {
